@@ -367,6 +367,7 @@ func checkWith(w *World, repo, verif, prop, tier string) int {
 	failed = append(failed, res.failed...)
 	nObl, nDis, nCover, nVacuous := 0, 0, 0, 0
 	var coverUndecided []string
+	nCoverSat, nCoverCons := 0, 0
 	byKind := map[string]int{}
 	bySolver := map[string]int{}
 	solverTime := 0.0
@@ -380,7 +381,13 @@ func checkWith(w *World, repo, verif, prop, tier string) int {
 		solverTime += o.Seconds
 		if o.Kind == "cover" {
 			nCover++
-			if o.Status != "sat" && o.Status != "unsat" {
+			switch o.Status {
+			case "sat":
+				nCoverSat++
+			case "consistent":
+				nCoverCons++
+			case "unsat":
+			default:
 				coverUndecided = append(coverUndecided, o.Name)
 			}
 			if o.Status == "unsat" {
@@ -567,8 +574,8 @@ func checkWith(w *World, repo, verif, prop, tier string) int {
 		"bounded_standins":           standinEv,
 		"assumed_contracts_used":     assumedList,
 		"dropped_by_translation":     droppedByTranslation(),
-		"vacuity": map[string]any{"reviewed_unreachable_returns": nUnreach, "cover_queries": nCover, "vacuous": nVacuous, "covers_undecided": len(coverUndecided), "covers_undecided_names": coverUndecided,
-			"note": "a cover asks the solver for a model of the assumptions at an exit; with quantified assumptions it often answers neither sat nor unsat within its 3 s: such a point is not shown reachable (no vacuity verdict for it), only not shown unreachable", "expected_obligations": len(expected), "missing_expected": countKind(failed, "gone")},
+		"vacuity": map[string]any{"reviewed_unreachable_returns": nUnreach, "cover_queries": nCover, "vacuous": nVacuous, "covers_sat": nCoverSat, "covers_consistent": nCoverCons, "covers_undecided": len(coverUndecided), "covers_undecided_names": coverUndecided,
+			"note": "a cover asks whether the assumptions at an exit are contradictory, with z3's trigger-based instantiation only (the instantiation the proofs rest on): sat = a model exists; consistent = the triggers are saturated and no contradiction was derived (the quantified heap axioms keep z3 from building a full model); unsat = vacuous (a violation unless the return is on the reviewed list); undecided = no answer in time", "expected_obligations": len(expected), "missing_expected": countKind(failed, "gone")},
 		"known_findings_reported": len(knownHit),
 		"contract_files":          cf,
 		"per_solver_timeout_s":    timeout,
